@@ -24,6 +24,7 @@ import (
 type linIn struct {
 	op  string
 	arg string
+	api bool // through the embedded API (ZScore cannot tell a missing key from score 0 there)
 }
 
 // sequential semantics of one key; the state is a string: "" absent, "s:"+value, "l:"+elements, "t:"+members
@@ -135,6 +136,130 @@ func linStep(state, input, output interface{}) (bool, interface{}) {
 		}
 		return out == "i:0", st
 	}
+	// hash ("h:") and sorted-set ("z:") keys: name=value pairs in name order; in.arg is "name" or "name=value"
+	if strings.HasPrefix(in.op, "H") || strings.HasPrefix(in.op, "Z") {
+		kind := "h"
+		if in.op[0] == 'Z' {
+			kind = "z"
+		}
+		var names, vals []string
+		if len(st) > 2 && st[0] == kind[0] {
+			for _, p := range strings.Split(st[2:], "\x00") {
+				i := strings.IndexByte(p, '=')
+				names, vals = append(names, p[:i]), append(vals, p[i+1:])
+			}
+		}
+		name, val := in.arg, ""
+		if i := strings.IndexByte(in.arg, '='); i >= 0 {
+			name, val = in.arg[:i], in.arg[i+1:]
+		}
+		at := -1
+		for i, x := range names {
+			if x == name {
+				at = i
+			}
+		}
+		put := func(v string) string { // state with name := v
+			ns, vs := append([]string{}, names...), append([]string{}, vals...)
+			if at >= 0 {
+				vs[at] = v
+			} else {
+				ns, vs = append(ns, name), append(vs, v)
+			}
+			idx := make([]int, len(ns))
+			for i := range idx {
+				idx[i] = i
+			}
+			sort.Slice(idx, func(a, b int) bool { return ns[idx[a]] < ns[idx[b]] })
+			var ps []string
+			for _, i := range idx {
+				ps = append(ps, ns[i]+"="+vs[i])
+			}
+			return kind + ":" + strings.Join(ps, "\x00")
+		}
+		del := func() string {
+			var ps []string
+			for i := range names {
+				if i != at {
+					ps = append(ps, names[i]+"="+vals[i])
+				}
+			}
+			return join(kind, ps)
+		}
+		ival := func(x string) (int64, bool) { v, err := strconv.ParseInt(x, 10, 64); return v, err == nil }
+		switch in.op {
+		case "HSET":
+			if at >= 0 {
+				return out == "i:0", put(val)
+			}
+			return out == "i:1", put(val)
+		case "HSETNX":
+			if at >= 0 {
+				return out == "i:0", st
+			}
+			return out == "i:1", put(val)
+		case "HGET":
+			if at < 0 {
+				return out == "(nil)", st
+			}
+			return out == "v:"+vals[at], st
+		case "HDEL", "ZREM":
+			if at < 0 {
+				return out == "i:0", st
+			}
+			return out == "i:1", del()
+		case "HLEN", "ZCARD":
+			return out == num(len(names)), st
+		case "HINCRBY":
+			cur := int64(0)
+			if at >= 0 {
+				v, ok := ival(vals[at])
+				if !ok {
+					return out == "ERR", st
+				}
+				cur = v
+			}
+			d, _ := ival(val)
+			return out == "i:"+strconv.FormatInt(cur+d, 10), put(strconv.FormatInt(cur+d, 10))
+		case "ZADD":
+			if at >= 0 {
+				return out == "i:0", put(val)
+			}
+			return out == "i:1", put(val)
+		case "ZADDNX":
+			if at >= 0 {
+				return out == "i:0", st
+			}
+			return out == "i:1", put(val)
+		case "ZADDXX":
+			if at < 0 {
+				return out == "i:0", st
+			}
+			return out == "i:0", put(val)
+		case "ZADDGT", "ZADDLT":
+			if at < 0 {
+				return out == "i:0", st
+			}
+			o, _ := ival(vals[at])
+			v, _ := ival(val)
+			if (in.op == "ZADDGT" && v > o) || (in.op == "ZADDLT" && v < o) {
+				return out == "i:1", put(val)
+			}
+			return out == "i:0", st
+		case "ZINCRBY":
+			cur := int64(0)
+			if at >= 0 {
+				cur, _ = ival(vals[at])
+			}
+			d, _ := ival(val)
+			return out == "v:"+strconv.FormatInt(cur+d, 10), put(strconv.FormatInt(cur+d, 10))
+		case "ZSCORE":
+			if at < 0 {
+				return out == "(nil)" || (in.api && len(names) == 0 && out == "v:0"), st
+			}
+			return out == "v:"+vals[at], st
+		}
+	}
 	return false, st
 }
 
@@ -221,13 +346,75 @@ func linCallAPI(n *nodis.Nodis, key string, in linIn) string {
 		sort.Strings(xs)
 		return "a:" + strings.Join(xs, ",")
 	}
+	name, val := in.arg, ""
+	if k := strings.IndexByte(in.arg, '='); k >= 0 {
+		name, val = in.arg[:k], in.arg[k+1:]
+	}
+	f, _ := strconv.ParseFloat(val, 64)
+	fl := func(v float64) string { return "v:" + strconv.FormatFloat(v, 'f', -1, 64) }
+	switch in.op {
+	case "HSET":
+		return i(n.HSet(key, name, []byte(val)))
+	case "HSETNX":
+		return i(n.HSetNX(key, name, []byte(val)))
+	case "HGET":
+		return bulk(n.HGet(key, name))
+	case "HDEL":
+		return i(n.HDel(key, name))
+	case "HLEN":
+		return i(n.HLen(key))
+	case "HINCRBY":
+		d, _ := strconv.ParseInt(val, 10, 64)
+		v, err := n.HIncrBy(key, name, d)
+		if err != nil {
+			return "ERR"
+		}
+		return i(v)
+	case "ZADD":
+		return i(n.ZAdd(key, name, f))
+	case "ZADDNX":
+		return i(n.ZAddNX(key, name, f))
+	case "ZADDXX":
+		return i(n.ZAddXX(key, name, f))
+	case "ZADDGT":
+		return i(n.ZAddGT(key, name, f))
+	case "ZADDLT":
+		return i(n.ZAddLT(key, name, f))
+	case "ZINCRBY":
+		return fl(n.ZIncrBy(key, name, f))
+	case "ZSCORE":
+		v, err := n.ZScore(key, name)
+		if err != nil {
+			return "(nil)"
+		}
+		return fl(v)
+	case "ZREM":
+		return i(n.ZRem(key, name))
+	case "ZCARD":
+		return i(n.ZCard(key))
+	}
 	return "?"
 }
 
 // one call over a connection
 func linCallTCP(c *tconn, key string, in linIn) string {
 	args := []string{in.op, key}
+	name, val := in.arg, ""
+	if k := strings.IndexByte(in.arg, '='); k >= 0 {
+		name, val = in.arg[:k], in.arg[k+1:]
+	}
 	switch in.op {
+	case "HSET", "HSETNX", "HINCRBY":
+		args = append(args, name, val)
+	case "HGET", "HDEL", "ZSCORE", "ZREM":
+		args = append(args, name)
+	case "HLEN", "ZCARD":
+	case "ZADD":
+		args = append(args, val, name)
+	case "ZADDNX", "ZADDXX", "ZADDGT", "ZADDLT":
+		args = []string{"ZADD", key, in.op[4:], val, name}
+	case "ZINCRBY":
+		args = append(args, val, name)
 	case "LRANGE":
 		args = append(args, "0", "-1")
 	case "GET", "INCR", "STRLEN", "DEL", "LPOP", "RPOP", "LLEN", "SCARD", "SMEMBERS":
@@ -267,17 +454,20 @@ var linOps = map[string][]string{
 	"s": {"SET", "GET", "GET", "INCR", "INCR", "APPEND", "STRLEN", "DEL", "SETNX", "GETSET"},
 	"l": {"RPUSH", "RPUSH", "LPUSH", "LPOP", "LPOP", "RPOP", "LLEN", "LRANGE", "DEL"},
 	"t": {"SADD", "SADD", "SREM", "SREM", "SISMEMBER", "SCARD", "SMEMBERS", "DEL"},
+	// conditional updates (NX / XX / GT / LT), read-modify-write and deletion by emptying on hashes and sorted sets
+	"h": {"HSET", "HSETNX", "HSETNX", "HGET", "HGET", "HDEL", "HLEN", "HINCRBY", "HINCRBY", "DEL"},
+	"z": {"ZADD", "ZADDNX", "ZADDXX", "ZADDGT", "ZADDGT", "ZADDLT", "ZADDLT", "ZINCRBY", "ZSCORE", "ZSCORE", "ZREM", "ZCARD", "DEL"},
 }
 
 func linHistory(n *nodis.Nodis, r *rand.Rand, rounds int, addr string) string {
-	workers, each := 6, 40
+	workers, each := 6, 60
 	if v, err := strconv.Atoi(os.Getenv("VERIF_LIN_WORKERS")); err == nil && v > 0 {
 		workers = v // 1: a sequential run (debugging the oracle itself)
 	}
 	t0 := time.Now()
 	total := 0
 	for round := 0; round < rounds; round++ {
-		keys := map[string]string{"s": fmt.Sprintf("hs%d", round), "l": fmt.Sprintf("hl%d", round), "t": fmt.Sprintf("ht%d", round)}
+		keys := map[string]string{"s": fmt.Sprintf("hs%d", round), "l": fmt.Sprintf("hl%d", round), "t": fmt.Sprintf("ht%d", round), "h": fmt.Sprintf("hh%d", round), "z": fmt.Sprintf("hz%d", round)}
 		hist := map[string][]porcupine.Operation{}
 		var mu sync.Mutex
 		var stop int32
@@ -307,9 +497,9 @@ func linHistory(n *nodis.Nodis, r *rand.Rand, rounds int, addr string) string {
 				defer c.c.Close()
 			}
 			for j := 0; j < each; j++ {
-				kind := []string{"s", "l", "t"}[rr.Intn(3)]
+				kind := []string{"s", "l", "t", "h", "z"}[rr.Intn(5)]
 				op := linOps[kind][rr.Intn(len(linOps[kind]))]
-				in := linIn{op: op}
+				in := linIn{op: op, api: addr == ""}
 				switch op {
 				case "SET", "SETNX", "GETSET":
 					in.arg = []string{"5", "10", "ab", "", "41"}[rr.Intn(5)]
@@ -319,6 +509,17 @@ func linHistory(n *nodis.Nodis, r *rand.Rand, rounds int, addr string) string {
 					in.arg = fmt.Sprintf("%d-%d", w, j) // unique: a lost or duplicated element shows
 				case "SADD", "SREM", "SISMEMBER":
 					in.arg = []string{"a", "b", "c"}[rr.Intn(3)]
+				case "HGET", "HDEL", "ZSCORE", "ZREM":
+					in.arg = []string{"f", "g"}[rr.Intn(2)]
+				case "HSET", "HSETNX":
+					in.arg = []string{"f", "g"}[rr.Intn(2)] + "=" + []string{"1", "7", "ab", ""}[rr.Intn(4)]
+				case "HINCRBY":
+					in.arg = []string{"f", "g"}[rr.Intn(2)] + "=" + []string{"1", "-2", "10"}[rr.Intn(3)]
+				case "ZADD", "ZADDNX", "ZADDXX", "ZADDGT", "ZADDLT":
+					// distinct scores per call: a lost conditional update shows as a score no sequential order explains
+					in.arg = []string{"f", "g"}[rr.Intn(2)] + "=" + strconv.Itoa(rr.Intn(40)-5+w*100)
+				case "ZINCRBY":
+					in.arg = []string{"f", "g"}[rr.Intn(2)] + "=" + []string{"1", "-3", "50"}[rr.Intn(3)]
 				}
 				call := time.Since(t0).Nanoseconds()
 				var out string
